@@ -367,7 +367,9 @@ def rule_h_whole_data_once(ctx, fns, enum_fns):
         n += 1
         loops = [(describe(lp, names=False), lp) for lp in f.walk() if lp.k == "ForStmt"]
         loops = [(d, lp) for d, lp in loops if d]
-        tof = [(d, lp) for d, lp in loops if re.search(r"get_min_tof_pos_num\(\)$", key([m for m in lp.c[0].walk() if m.k == "VarDecl" and m.c][0].c[0].strip(), False, sub) if [m for m in lp.c[0].walk() if m.k == "VarDecl" and m.c] else "") and lp.c[1].strip().k == "BinaryOperator" and lp.c[1].strip().op == "<=" and re.search(r"get_max_tof_pos_num\(\)$", key(lp.c[1].strip().c[1].strip(), False, sub)) and str(d.get("step")) == "1"]
+        from engine.loops import bounds as loop_bounds
+
+        tof = [(d, lp) for d, lp in loops if (loop_bounds(lp, sub) or {}).get("init", "").endswith("get_min_tof_pos_num()") and (loop_bounds(lp, sub) or {}).get("upper", "").endswith("get_max_tof_pos_num()") and str(d.get("step")) == "1"]
         lst = [(d, lp) for d, lp in loops if str(d.get("init")) == "0" and str(d.get("step")) == "1" and any(a is lp for t_ in tof for a in t_[1].ancestors())]
         per = "stir::BinNormalisation::" + f.short
         work = [c for c in f.calls() if c.k == "CXXMemberCallExpr" and (c.callee or "") == per and c.c and c.c[0].strip().k == "CXXThisExpr" and len(c.call_args()) == 1 and "RelatedViewgrams" in (c.call_args()[0].strip().type or "")]
